@@ -49,12 +49,17 @@ func update(ctx context.Context, p *Pather, dc daemon.Connector, dstIAs []addr.I
 		if dstIA.IsWildcard() {
 			panic("unexpected destination IA: wildcard.")
 		}
+		if _, ok := paths[dstIA]; ok {
+			// listed once per reference clock or peer in that AS: its
+			// paths are offered once, not once per listing
+			continue
+		}
 		ps, err := dc.Paths(ctx, dstIA, localIA, daemon.PathReqFlags{Refresh: true})
 		if err != nil {
 			p.log.LogAttrs(ctx, slog.LevelInfo,
 				"failed to look up paths", slog.Any("to", dstIA), slog.Any("error", err))
 		}
-		paths[dstIA] = append(paths[dstIA], ps...)
+		paths[dstIA] = ps
 	}
 
 	p.mu.Lock()
